@@ -103,14 +103,13 @@ let s_team si t = String.concat " " [s_list si t.t_inds; s_hash t.t_sig]
 let p_pop pi () = let nl = nint () in times nl (fun () -> let al = nhex () in let n = nint () in (al, times n pi))
 let s_pop si p = s_list (fun (al, l) -> zhex al ^ " " ^ s_list si l) p
 let p_sum pi () =
-  let known = nint () in
-  let best = if known = 0 then None else
-    (let i = pi () in let f = p_fit () in let a = nhex () in Some ((i, f), a)) in
+  let i = pi () in let f = p_fit () in let a = nhex () in
   let el = ndec () in let mu = nhex () in let cr = nhex () in let ge = nhex () in let li = nhex () in
-  { su_best = best; su_elapsed = el; su_mutations = mu; su_crossovers = cr; su_gen = ge; su_last_imp = li }
+  { su_sol = i; su_fit = f; su_acc = a;
+    su_elapsed = el; su_mutations = mu; su_crossovers = cr; su_gen = ge; su_last_imp = li }
 let s_sum si x =
-  String.concat " " ((match x.su_best with None -> ["0"] | Some ((i, f), a) -> ["1"; si i; s_fit f; zhex a])
-    @ [zdec x.su_elapsed; zhex x.su_mutations; zhex x.su_crossovers; zhex x.su_gen; zhex x.su_last_imp])
+  String.concat " " [si x.su_sol; s_fit x.su_fit; zhex x.su_acc;
+                     zdec x.su_elapsed; zhex x.su_mutations; zhex x.su_crossovers; zhex x.su_gen; zhex x.su_last_imp]
 let p_dist () =
   let c = nhex () in let m = nhex () in let mn = nhex () in let mx = nhex () in let m2 = nhex () in
   let n = nint () in let kv = times n (fun () -> let k = nhex () in let v = nhex () in (k, v)) in
@@ -125,26 +124,27 @@ let sset : symset ref = ref []
 let slots : (int, symset) Hashtbl.t = Hashtbl.create 4
 
 (* a persistable type: parser of dumps, printer, save, load, default *)
-type 'a ty = { pd : unit -> 'a; sd : 'a -> string; sv : 'a -> z list;
+type 'a ty = { pd : unit -> 'a; sd : 'a -> string; sv : 'a -> z list; em : 'a -> bool;
                ld : z list -> 'a -> (bool * 'a) * z list; df : unit -> 'a }
 
 let ty_mep = { pd = p_mep; sd = s_mep; sv = (fun m -> mep_save show17 !sset m);
-               ld = (fun s t -> mep_load read_f !sset s t); df = (fun () -> mep_default) }
-let ty_ga = { pd = p_vec ndec; sd = s_vec zdec; sv = ga_save; ld = ga_load; df = (fun () -> vec_default) }
-let ty_de = { pd = p_vec nhex; sd = s_vec zhex; sv = de_save show17; ld = de_load read_f; df = (fun () -> vec_default) }
+               ld = (fun s t -> mep_load read_f !sset s t); df = (fun () -> mep_default); em = mep_empty }
+let ty_ga = { pd = p_vec ndec; sd = s_vec zdec; sv = ga_save; ld = ga_load; df = (fun () -> vec_default); em = vec_empty }
+let ty_de = { pd = p_vec nhex; sd = s_vec zhex; sv = de_save show17; ld = de_load read_f; df = (fun () -> vec_default); em = vec_empty }
 let ty_team i = { pd = p_team i.pd; sd = s_team i.sd; sv = team_save i.sv;
-                  ld = (fun s t -> team_load i.ld (i.df ()) s t); df = (fun () -> team_default) }
+                  ld = (fun s t -> team_load i.ld (i.df ()) s t); df = (fun () -> team_default); em = (fun t -> t.t_inds = []) }
 let ty_pop i = { pd = p_pop i.pd; sd = s_pop i.sd; sv = pop_save i.sv;
-                 ld = (fun s t -> pop_load i.ld (i.df ()) s t); df = (fun () -> []) }
-let ty_sum i = { pd = p_sum i.pd; sd = s_sum i.sd; sv = summary_save show17 i.sv;
-                 ld = (fun s t -> summary_load read_f i.ld (i.df ()) s t);
-                 df = (fun () -> { su_best = None; su_elapsed = Z0; su_mutations = Z0; su_crossovers = Z0;
+                 ld = (fun s t -> pop_load i.ld (i.df ()) s t); df = (fun () -> []); em = (fun _ -> false) }
+let ty_sum i = { pd = p_sum i.pd; sd = s_sum i.sd; sv = summary_save show17 i.sv i.em;
+                 ld = (fun s t -> summary_load read_f i.ld (i.df ()) s t); em = (fun _ -> false);
+                 df = (fun () -> { su_sol = i.df (); su_fit = []; su_acc = minus_one;
+                                   su_elapsed = Z0; su_mutations = Z0; su_crossovers = Z0;
                                    su_gen = Z0; su_last_imp = Z0 }) }
-let ty_hash = { pd = p_hash; sd = s_hash; sv = hash_save; ld = hash_load; df = (fun () -> (Z0, Z0)) }
-let ty_fit = { pd = p_fit; sd = s_fit; sv = fit_save show17; ld = fit_load read_f; df = (fun () -> []) }
-let ty_dist = { pd = p_dist; sd = s_dist; sv = dist_save show17; ld = dist_load read_f;
+let ty_hash = { pd = p_hash; sd = s_hash; sv = hash_save; ld = hash_load; df = (fun () -> (Z0, Z0)); em = (fun _ -> false) }
+let ty_fit = { pd = p_fit; sd = s_fit; sv = fit_save show17; ld = fit_load read_f; df = (fun () -> []); em = (fun _ -> false) }
+let ty_dist = { pd = p_dist; sd = s_dist; sv = dist_save show17; ld = dist_load read_f; em = (fun _ -> false);
                 df = (fun () -> { d_count = Z0; d_mean = Z0; d_min = Z0; d_max = Z0; d_m2 = Z0; d_seen = [] }) }
-let ty_mat = { pd = p_mat; sd = s_mat; sv = matrix_save; ld = matrix_load;
+let ty_mat = { pd = p_mat; sd = s_mat; sv = matrix_save; ld = matrix_load; em = (fun _ -> false);
                df = (fun () -> { mx_cols = Z0; mx_data = [] }) }
 
 let run_ty (type a) (t : a ty) (cmd : string) : string =
